@@ -34,8 +34,9 @@ def tasks(tier):
          dict(mode='bytes', inst_sw=None, menu='c03x', sigma='ab', L=4 if q else 6),
          dict(mode='bytes', inst_sw=None, menu='c03r', sigma='ab', L=4 if q else 6),
          # reads of up to three characters: a chunk longer than the longest listed string that completes
-         # an occurrence begun in the text already pending
-         dict(mode='bytes', inst_sw=None, menu='c03x', sigma='ab', L=4 if q else 5, maxchunk=3),
+         # an occurrence begun in the text already pending; with maxread=3 such a chunk is also a *full* read
+         # (the child is in the middle of a burst), the other task leaves maxread at its default
+         dict(mode='bytes', inst_sw=None, menu='c03x', sigma='ab', L=4 if q else 5, maxchunk=3, maxread=3),
          dict(mode='utf-8', inst_sw=None, menu='c03r', sigma='ab', L=4 if q else 5, maxchunk=3)]
     if not q:
         t += [dict(mode='bytes', inst_sw=None, menu='c03x', sigma='ab', L=7),
